@@ -221,4 +221,47 @@ fn one_case(ctx: &Ctx, case: u64, l: &mut Local) {
             json!({"input": input(), "at": at, "got": got}),
         ));
     }
+    // 6. the bound holder key given as a JWK that carries optional members (use, key_ops, alg, x5t,
+    // x5c, x5u, kid): the confirmation claim is that key as given, and key binding still works
+    if let (Some((halg, hidx)), true) = (cfg.holder, case % 8 == 3) {
+        let mut deco = keys::holder_jwk_json(halg, hidx);
+        for _ in 0..1 + r.below(4) {
+            match r.below(7) {
+                0 => deco["use"] = json!("sig"),
+                1 => deco["key_ops"] = json!(["verify"]),
+                2 => deco["alg"] = json!(halg.name()),
+                3 => deco["x5t"] = json!("dGhpcyBpcyBhIFNIQTEgdGVzdCE"),
+                4 => deco["x5c"] = json!(["MIIB"]),
+                5 => deco["x5u"] = json!("https://holder.example/cert.pem"),
+                _ => deco["kid"] = json!(format!("kid-{}", r.below(1000))),
+            }
+        }
+        let parsed: Option<jsonwebtoken::jwk::Jwk> = serde_json::from_value(deco.clone()).ok();
+        if let Some(pj) = parsed {
+            let canonical = serde_json::to_value(&pj).unwrap_or(Value::Null);
+            let mut issuer = api::new_issuer(cfg.alg, 0, s.explicit_alg);
+            let kbx = pipeline::kb_args_for(&mut r, (halg, hidx));
+            let res = match api::issue_with_jwk(&mut issuer, &s.u, &s.strat, Some(&deco), cfg.decoys, cfg.fmt) {
+                Outcome::Ok(sd) => match api::holder_new(&sd, cfg.fmt) {
+                    Outcome::Ok(mut h) => match api::present(&mut h, &sel, Some(&kbx)) {
+                        Outcome::Ok(p) => api::verify(&p, &Resolver::Fixed(cfg.alg, 0), Some((kbx.aud.as_str(), kbx.nonce.as_str())), cfg.fmt).out,
+                        o => o.map(|_| Value::Null),
+                    },
+                    o => o.map(|_| Value::Null),
+                },
+                o => o.map(|_| Value::Null),
+            };
+            l.evals += 1;
+            let (view, _) = model::view(&s.u, &sel, &s.strat.sd);
+            let want = model::with_cnf(view, Some(&canonical));
+            match res {
+                Outcome::Ok(v) if v == want => l.count("decorated-holder-jwk.equal-to-model"),
+                Outcome::Ok(v) => {
+                    let (at, e, g, _) = first_diff(&want, &v).unwrap_or_default();
+                    l.violate(viol(case, "claims-differ-from-model", "holder JWK with optional members", "verified claims differ from V(U,SD,D) + cnf".into(), json!({"input": input(), "holder_jwk": deco, "at": at, "expected": e, "got": g})));
+                }
+                other => l.violate(viol(case, "verify", "holder JWK with optional members", other.panic_signature().unwrap_or_else(|| other.describe()), json!({"input": input(), "holder_jwk": deco, "history": api::history()}))),
+            }
+        }
+    }
 }
